@@ -378,8 +378,12 @@ def _product(lists, limit):
     return res
 
 
-def encodings(v, mode="full", limit=1 << 30, child_mode=None):
+def encodings(v, mode="full", limit=1 << 30, child_mode=None, modes=None, path=()):
     """Yields encodings of an encoder-side value, each at most `limit` bytes.
+
+    If `modes` (dict path -> mode) is given, every node of the value tree is encoded in mode
+    modes.get(path, "one"): the path of the root is (), of the i-th array element path+(i,), of the
+    i-th map key path+(i,'k') and of its value path+(i,'v').  "one" = preferred serialisation only.
 
     Encoder-side values are the mvtext tuples plus
       ('bignum', n, 0)                tag 2/3 + byte string (also with one leading zero byte)
@@ -395,8 +399,13 @@ def encodings(v, mode="full", limit=1 << 30, child_mode=None):
     Children of containers are encoded with child_mode (default: "reduced" under "full",
     otherwise "min").
     """
+    if modes is not None:
+        mode = modes.get(path, "one")
     if child_mode is None:
         child_mode = "reduced" if mode == "full" else "min"
+    one = mode == "one"
+    if one:
+        mode = "min"
     k, d, t = v[0], v[1], v[2]
     tagheads = [b""]
     if k == 'int':
@@ -456,24 +465,28 @@ def encodings(v, mode="full", limit=1 << 30, child_mode=None):
         tagheads = heads(6, d[0], "full" if mode == "full" else "min")
         body = [e for e in _string_encodings(2, d[1], "reduced" if mode == "full" else mode) if len(e) <= limit]
     elif k == 'arr':
-        kids = [list(encodings(e, child_mode, limit)) for e in d]
+        kids = [list(encodings(e, child_mode, limit, None, modes, path + (i,))) for i, e in enumerate(d)]
         body = []
         hs = heads(4, len(d)) if mode != "min" else heads(4, len(d), "min")
         for hd in hs:
             body += _product([[hd]] + kids, limit)
-        body += _product([[b"\x9f"]] + kids + [[b"\xff"]], limit)
+        if not one:
+            body += _product([[b"\x9f"]] + kids + [[b"\xff"]], limit)
     elif k == 'obj':
         kids = []
-        for kk, vv in d:
-            kids.append(list(encodings(('str', kk, 0), "min" if child_mode == "min" else "reduced", limit)))
-            kids.append(list(encodings(vv, child_mode, limit)))
+        for i, (kk, vv) in enumerate(d):
+            kids.append(list(encodings(('str', kk, 0), "min" if child_mode == "min" else "reduced", limit, None, modes, path + (i, 'k'))))
+            kids.append(list(encodings(vv, child_mode, limit, None, modes, path + (i, 'v'))))
         body = []
         hs = heads(5, len(d)) if mode != "min" else heads(5, len(d), "min")
         for hd in hs:
             body += _product([[hd]] + kids, limit)
-        body += _product([[b"\xbf"]] + kids + [[b"\xff"]], limit)
+        if not one:
+            body += _product([[b"\xbf"]] + kids + [[b"\xff"]], limit)
     else:
         raise ValueError("ref_cbor cannot encode %r" % (k,))
+    if one and k not in ('arr', 'obj'):
+        body = sorted(body, key=len)[:1]
     for th in tagheads:
         for b in body:
             if len(th) + len(b) <= limit:
